@@ -296,6 +296,34 @@ def bounded(b):
             M, N, cells, _ = raster([(60, 0, 20, 1), (55, 0, 20, 1)], 1, False, False, -1, 0, False, False, None, False, False)
             got = {(int(r), int(c)): int(res[r, c]) for r, c in zip(*np.nonzero(res))}
             b.case("roll/object_inputs_show_every_part", res.shape == (M, N) and got == cells, case, "shape %r (expected %r); the tied C4 fills columns %r, it sounds for 20 sixteenths" % (res.shape, (M, N), sorted(c for (r, c) in got if r == 60)))
+    # meters counted in halves and in whole notes (alla breve 2/2, 3/2, 2/1), rolled on the beat time line: a half note is one column per
+    # beat at time_div=1 in x/2, a whole note is one column in x/1
+    for (bts, btype) in ((2, 2), (3, 2), (2, 1)):
+        d_ = 4
+        beat = 4 * d_ // btype                                   # divisions per notated beat
+        bar = bts * beat
+        ab = G.build_part("P0", d_, ts=((0, bts, btype),), notes=[("h0", 0, beat, "C", None, 4, 1, 1), ("h1", beat, beat, "E", None, 4, 1, 1), ("h2", bar, 2 * beat, "G", None, 4, 1, 1), ("lo", 0, bar, "C", None, 3, 2, 1)],
+                          measures=[(0, bar), (bar, 2 * bar)])
+        for unit in ("beat", "auto"):
+            case = {"input": "Part", "time_signature": "%d/%d" % (bts, btype), "time_unit": unit}
+            ok, res = b.guard("roll/no_exception", case, lambda: compute_pianoroll(ab, time_unit=unit, time_div=2, remove_silence=False).toarray())
+            if ok:
+                M, N, cells, _ = raster([(60, 0, 1, 1), (64, 1, 1, 1), (67, bts, 2, 1), (48, 0, bts, 1)], 2, False, False, -1, 0, False, False, None, False, False)
+                got = {(int(r), int(c)): int(res[r, c]) for r, c in zip(*np.nonzero(res))}
+                b.case("roll/object_inputs_show_every_part", res.shape == (M, N) and got == cells, case, "shape %r (expected %r) with two columns per beat of a 1/%d note" % (res.shape, (M, N), btype))
+    # a performed part made from a note array with track AND channel columns: the drum channel is channel 9, whatever the track is called
+    for rows in ([(60, 0.0, 1.0, 64, 9, 0), (36, 0.0, 1.0, 100, 2, 9), (62, 1.0, 1.0, 70, 9, 3)], [(60, 0.0, 1.0, 64, 0, 0), (36, 0.5, 1.0, 100, 1, 9), (62, 1.0, 1.0, 70, 9, 1)]):
+        na = np.array([(p_, o_, du_, v_, tr_, ch_, "n%d" % k) for k, (p_, o_, du_, v_, tr_, ch_) in enumerate(rows)],
+                      dtype=[("pitch", "i4"), ("onset_sec", "f4"), ("duration_sec", "f4"), ("velocity", "i4"), ("track", "i4"), ("channel", "i4"), ("id", "U8")])
+        for rd in (True, False):
+            case = {"input": "PerformedPart.from_note_array", "tracks": [r[4] for r in rows], "channels": [r[5] for r in rows], "remove_drums": rd}
+            ok, roll = b.guard("roll/no_exception", case, lambda: compute_pianoroll(pf.PerformedPart.from_note_array(na), time_unit="sec", time_div=2, remove_drums=rd, remove_silence=False))
+            if ok:
+                keep = [r[:4] for r in rows if not (rd and r[5] == 9)]
+                M, N, cells, _ = raster(keep, 2, False, False, -1, 0, False, False, None, False, True)
+                arr = roll.toarray()
+                got = {(int(r), int(c)): int(arr[r, c]) for r, c in zip(*np.nonzero(arr))}
+                b.case("roll/drum_channel_filtering", got == cells, case, "cells %r, expected the notes that are not on channel 9: %r" % (sorted({r for r, _ in got}), sorted({r for r, _ in cells})))
     # drum channel filtering
     for ch in ([0, 9, 1], [9, 9, 0], [10, 9, 15], [8, 11, 9]):
         notes = [(60, 0.0, 1.0, 64), (36, 0.0, 1.0, 100), (62, 1.0, 1.0, 70)]
